@@ -521,14 +521,14 @@ class Interp:
             a = self.ev(L); b = self.ev(R)
             self._lit = (strip(L).get('kind') in ('IntegerLiteral', 'CharacterLiteral') or (strip(L).get('kind') == 'UnaryOperator' and strip(strip(L)['inner'][0]).get('kind') == 'IntegerLiteral'),
                          strip(R).get('kind') in ('IntegerLiteral', 'CharacterLiteral') or (strip(R).get('kind') == 'UnaryOperator' and strip(strip(R)['inner'][0]).get('kind') == 'IntegerLiteral'))
+            a = self.operand_uwrap(L, a); b = self.operand_uwrap(R, b)
             try: r = self.binop(op, a, b)
             finally: self._lit = (False, False)
-            self.no_unsigned_wrap(n, op, r)
-            return r
+            return self.no_unsigned_wrap(n, op, r)
         if k == 'CompoundAssignOperator':
             name = self.lv(n['inner'][0]); v = self.ev(n['inner'][1]); op = n['opcode'][:-1]
             cur = self.env.get(name, Ptr('end', 0)) if name == '#end' else self.env[name]
-            r = self.binop(op, cur, v); self.no_unsigned_wrap(n, op, r)
+            r = self.no_unsigned_wrap(n, op, self.binop(op, cur, v))
             self.store(name, r); return self.env[name]
         if k == 'ConditionalOperator':
             c = self.truth(self.ev(n['inner'][0]))
@@ -552,13 +552,32 @@ class Interp:
     def subscript_hook(self, n, base, idx):
         raise Unsupported(f'subscript {base!r}[{idx!r}]')
 
+    UNSIGNED_BITS = (('unsigned long', 64), ('size_t', 64), ('uintptr_t', 64), ('uint64_t', 64), ('unsigned int', 32), ('uint32_t', 32), ('unsigned', 32))
+
+    def unsigned_bits(self, t):
+        t = re.sub(r'^(?:const |volatile )+', '', t or '')
+        for name, bits in self.UNSIGNED_BITS:
+            if t == name or t.startswith(name + ' '): return bits
+        return None
+
+    def uwrap(self, t, v):
+        """a negative mathematical integer in an unsigned type: C reduces it modulo 2^N (((unsigned)c | 0x20u) - 'a' < 26u).
+        Values are concrete (class representatives), so the reduced value is the exact C value for that representative."""
+        if isinstance(v, int) and not isinstance(v, bool) and v < 0:
+            bits = self.unsigned_bits(t)
+            if bits: return type(v)(v % (1 << bits)) if isinstance(v, Byte) else v % (1 << bits)
+        return v
+
+    def operand_uwrap(self, n, v):
+        """operand converted to an unsigned type by a cast the evaluator otherwise looks through"""
+        while n.get('kind') in ('ParenExpr', 'ImplicitCastExpr', 'CStyleCastExpr'):
+            if n['kind'] != 'ParenExpr' and n.get('castKind') == 'IntegralCast': v = self.uwrap(n.get('type', {}).get('qualType', ''), v)
+            n = n['inner'][-1]
+        return v
+
     def no_unsigned_wrap(self, n, op, r):
-        """integers are evaluated as mathematical integers: an unsigned-typed + - * whose result is negative wraps around in C
-        (((unsigned)c | 0x20u) - 'a' < 26u), which this evaluation does not model -> stop, never a verdict from the wrong value"""
-        if op in ('+', '-', '*') and isinstance(r, int) and not isinstance(r, bool) and r < 0:
-            t = (n.get('computeResultType') or n.get('type') or {}).get('qualType', '')
-            if re.match(r'(?:const )?(?:unsigned\b|size_t\b|uint\d*_t\b|uintptr_t\b)', t):
-                raise Unsupported(f'unsigned arithmetic wraps around ({t}: {op} gives a negative mathematical result): not modelled')
+        if op in ('+', '-', '*'): return self.uwrap((n.get('computeResultType') or n.get('type') or {}).get('qualType', ''), r)
+        return r
 
     def binop(self, op, a, b):
         cmpops = ('==', '!=', '<', '<=', '>', '>=')
